@@ -272,7 +272,9 @@ func TestC05_Bytes(t *testing.T) {
 		s := c05GenScn(rt, oo, func(id string) { vkExcluded(unit, id) })
 		for _, p := range poisons {
 			if err := c05RunPoison(p); err != nil {
-				rt.Fatalf("%v", err)
+				// only the real-time watchdog can get here: not a verdict
+				vkCase(unit, "", nil, "inconclusive_watchdog_failing_connection")
+				return
 			}
 		}
 		g0, b0 := gatherAll.Load(), gatherBody.Load()
@@ -284,6 +286,9 @@ func TestC05_Bytes(t *testing.T) {
 			if v0.fail != "" {
 				rt.Fatalf("after failed connection(s) %+v, first healthy connection: %s", poisons, v0.fail)
 			}
+			if v0.inconclusive != "" {
+				vkClass(unit, "inconclusive_"+v0.inconclusive)
+			}
 		}
 		v, err := c05RunTCP(s, oo)
 		if err != nil {
@@ -294,6 +299,11 @@ func TestC05_Bytes(t *testing.T) {
 				rt.Fatalf("after failed connection(s) %+v: %s", poisons, v.fail)
 			}
 			rt.Fatalf("%s", v.fail)
+		}
+		if v.inconclusive != "" {
+			sort.Strings(v.classes)
+			vkCase(unit, "", nil, v.classes...)
+			return
 		}
 		if len(poisons) > 0 {
 			v.nt = true
